@@ -72,3 +72,10 @@ Proof.
   intros H. unfold merged_spec. apply fold_covers_member; [|exact H].
   unfold covers_self, covers, spec_empty. cbn. repeat split; auto; intros ? [].
 Qed.
+
+(* the same for power analysis: every PowerBaseAggregated metric's request is covered by the ungrouped query *)
+Theorem power_merged_spec_covers ps s : In (PwAggr s) ps -> covers (power_merged_spec ps) s.
+Proof.
+  intros H. unfold power_merged_spec. apply merged_spec_covers.
+  change (MAggr s) with (power_metric (PwAggr s)). apply in_map. exact H.
+Qed.
